@@ -6,6 +6,8 @@ package parser
 import (
 	"errors"
 	"fmt"
+	"math"
+	"strconv"
 
 	"github.com/theory/sqljson/path/ast"
 )
@@ -25,4 +27,26 @@ func Parse(path string) (*ast.AST, error) {
 	}
 
 	return lexer.result, nil
+}
+
+// newInteger returns an integer node for the text of an INT_P token. The
+// lexer vouches for the spelling but not for the size: a value that does not
+// fit in an int64 is reported as a parse error instead of being handed to
+// [ast.NewInteger], which panics on it.
+func newInteger(lex pathLexer, text string) ast.Node {
+	if _, err := strconv.ParseInt(text, 0, 64); err != nil {
+		lex.Error(fmt.Sprintf("integer literal %v is out of range", text))
+		return ast.NewInteger("0")
+	}
+	return ast.NewInteger(text)
+}
+
+// newNumeric returns a numeric node for the text of a NUMERIC_P token, or
+// reports a parse error if its value does not fit in a float64.
+func newNumeric(lex pathLexer, text string) ast.Node {
+	if num, err := strconv.ParseFloat(text, 64); err != nil || math.IsInf(num, 0) || math.IsNaN(num) {
+		lex.Error(fmt.Sprintf("numeric literal %v is out of range", text))
+		return ast.NewNumeric("0.0")
+	}
+	return ast.NewNumeric(text)
 }
